@@ -320,6 +320,78 @@ fn fault_step(w: &mut World, ctx: &mut Ctx, st: &Step) -> StepResult {
             ctx.shape_mix(om.shape_hash() ^ 0x48);
             StepResult::Produced
         }
+        "EncDecorated" | "CompDecorated" => {
+            // an assertion that carries its own assertion, whose inner predicate/object pair is obscured in place;
+            // then the WHOLE envelope is encrypted (resp. compressed), sent, and restored
+            let enc_case = st.op == "EncDecorated";
+            let (pi, oi) = (w.idx(st.arg(1)).unwrap_or(d), w.idx(st.arg(2)).unwrap_or(d));
+            let inner = Envelope::new_assertion(w.docs[pi].env.clone(), w.docs[oi].env.clone());
+            let decorated = inner.add_assertion("since", (st.arg(3) % 40) as u32);
+            let host = match guarded(|| orig.add_assertion_envelope(decorated.clone())) {
+                Ok(Ok(e)) => e,
+                _ => return StepResult::Skipped,
+            };
+            let k1 = sym_key((st.arg(3) % 4) as u32);
+            let k2 = sym_key(((st.arg(3) + 1) % 4) as u32);
+            let action = match (enc_case, st.arg(3) % 3) {
+                (true, _) => ObscureAction::Encrypt(k1.clone()),
+                (false, 0) => ObscureAction::Elide,
+                (false, _) => ObscureAction::Compress,
+            };
+            let shaped = match guarded(|| host.elide_removing_target_with_action(&inner, &action)) {
+                Ok(e) => e,
+                Err(p) => {
+                    ctx.violate_sig("C16.no-panic", format!("elide with action panicked: {}", p), p);
+                    return StepResult::Skipped;
+                }
+            };
+            ctx.probe("decorated-assertion-with-obscured-inner-pair");
+            ctx.checked();
+            let oracle = if enc_case { "C08.roundtrip" } else { "C13.roundtrip" };
+            let packed = match guarded(|| if enc_case { Ok(shaped.encrypt(&k2)) } else { shaped.compress() }) {
+                Ok(Ok(e)) => e,
+                Ok(Err(e)) => {
+                    ctx.violate(oracle, format!("packing an envelope that holds a decorated, partly obscured assertion failed: {}", e));
+                    return StepResult::Refused;
+                }
+                Err(p) => {
+                    ctx.violate_sig(oracle, format!("packing an envelope that holds a decorated, partly obscured assertion panicked: {}", p), p);
+                    return StepResult::Skipped;
+                }
+            };
+            let back = match decode_guarded(&packed.to_cbor_data()) {
+                Decoded::Ok(e) => e,
+                _ => {
+                    ctx.violate(oracle, "the packed envelope does not decode".to_string());
+                    return StepResult::Refused;
+                }
+            };
+            match guarded(|| if enc_case { back.decrypt(&k2) } else { back.uncompress() }) {
+                Ok(Ok(x)) => {
+                    if !identical_bytes(&x, &shaped) {
+                        ctx.violate(oracle, "restoring did not return an envelope identical to the original".to_string());
+                    }
+                }
+                Ok(Err(e)) => ctx.violate(oracle, format!("restoring an envelope that holds a decorated, partly obscured assertion failed: {}", e)),
+                Err(p) => ctx.violate_sig(oracle, format!("restoring panicked: {}", p), p),
+            }
+            // the subject-only forms on the same document
+            if !enc_case && !shaped.subject().is_obscured() {
+                match guarded(|| shaped.compress_subject().and_then(|c| c.uncompress_subject())) {
+                    Ok(Ok(x)) => {
+                        if !identical_bytes(&x, &shaped) {
+                            ctx.violate(oracle, "compress_subject / uncompress_subject did not return an envelope identical to the original".to_string());
+                        }
+                    }
+                    Ok(Err(_)) if shaped.subject().is_obscured() && !shaped.subject().is_compressed() => {}
+                    Ok(Err(e)) => ctx.violate(oracle, format!("compress_subject / uncompress_subject failed on an envelope that holds a decorated, partly obscured assertion: {}", e)),
+                    Err(p) => ctx.violate_sig(oracle, format!("compress_subject / uncompress_subject panicked: {}", p), p),
+                }
+            }
+            ctx.t(&st.op);
+            ctx.shape_mix(om.shape_hash() ^ 0x58);
+            StepResult::Produced
+        }
         "EncTamper" | "EncBitflip" | "EncFlipAll" => {
             let key = (st.arg(1) % 4) as u32;
             let whole = st.arg(2) % 2 == 1;
@@ -651,7 +723,7 @@ pub fn run(scn: &Scenario, ctx: &mut Ctx) {
         ctx.step = i;
         ctx.sim_ticks += 1;
         let r = match st.op.as_str() {
-            "EncRoundtrip" | "EncObscured" | "EncTamper" | "EncBitflip" | "EncFlipAll" | "EncMisdeclare" | "CompRoundtrip" | "CompTamper" | "CompBitflip" | "CompFlipAll" | "CompMisdeclare" | "CompMisdirected" => fault_step(&mut w, ctx, st),
+            "EncRoundtrip" | "EncObscured" | "EncDecorated" | "CompDecorated" | "EncTamper" | "EncBitflip" | "EncFlipAll" | "EncMisdeclare" | "CompRoundtrip" | "CompTamper" | "CompBitflip" | "CompFlipAll" | "CompMisdeclare" | "CompMisdirected" => fault_step(&mut w, ctx, st),
             _ => hist::exec_step(&mut w, ctx, st),
         };
         if !matches!(r, StepResult::Skipped) {
@@ -681,14 +753,21 @@ pub fn generate(property: &str, r: &mut SimRng, seed: u64) -> Scenario {
         if property == "C08" {
             match r.below(10) {
                 0..=1 => scn.push("EncRoundtrip", &[ds(r), r.below(4), r.below(2), r.below(3)]),
-                2 => scn.push("EncObscured", &[ds(r), r.below(4), r.below(200)]),
+                2 => {
+                    if r.chance(1, 2) {
+                        scn.push("EncObscured", &[ds(r), r.below(4), r.below(200)])
+                    } else {
+                        scn.push("EncDecorated", &[ds(r), ds(r), ds(r), r.below(120)])
+                    }
+                }
                 3..=5 => scn.push("EncTamper", &[ds(r), r.below(4), r.below(2), r.below(4), r.next() % 100000, r.below(6)]),
                 6..=7 => scn.push("EncBitflip", &[ds(r), r.below(4), r.below(2), r.next() % 1000000]),
                 _ => scn.push("EncMisdeclare", &[ds(r), ds(r), r.below(4), r.below(2)]),
             }
         } else {
             match r.below(10) {
-                0..=2 => scn.push("CompRoundtrip", &[ds(r), r.below(2), r.below(200)]),
+                0..=1 => scn.push("CompRoundtrip", &[ds(r), r.below(2), r.below(200)]),
+                2 => scn.push("CompDecorated", &[ds(r), ds(r), ds(r), r.below(120)]),
                 3..=5 => scn.push("CompTamper", &[ds(r), r.below(2), r.below(4), r.next() % 100000, r.below(6)]),
                 6..=7 => scn.push("CompBitflip", &[ds(r), r.below(2), r.next() % 1000000]),
                 8 => scn.push("CompMisdeclare", &[ds(r), ds(r), r.below(2)]),
